@@ -766,6 +766,10 @@ def c18_case(seed, index):
             case = formats.gen_max(wr, small=small, w8_only=False, with_opts=wr.random() < 0.9)
         else:
             case = formats.GEN[fmt](wr, small=small)
+    longest = st.rng("longest").random() < 0.025
+    if longest:
+        # its own stream, so that every other case of the seed stays what it was
+        case = formats.gen_longest(st.rng("longest-case"))
     er = st.rng("env")
     n_extra = 4 if case.fmt in SMALL_FORMATS and len(case.data) < 4000 else 2
     envs = [Env()]
@@ -774,6 +778,10 @@ def c18_case(seed, index):
         if len(envs) > n_extra:
             break
         e = draw_env(er, case.tool)
+        if longest:
+            # megabytes of output: byte-sized chunks would cost half a minute per run
+            e.in_chunk = {"one": "small", "boundary": "page"}.get(e.in_chunk, e.in_chunk)
+            e.out_chunk = {"one": "small", "tiny": "small", "boundary": "page"}.get(e.out_chunk, e.out_chunk)
         if e.key() not in seen:
             seen.add(e.key())
             envs.append(e)
